@@ -197,10 +197,9 @@ func HarnessC14Enum() {
 		a, b := []string{"a", "A", "b"}[verifChoose(3)], []string{"a", "A", "b"}[verifChoose(3)]
 		data, member = a, b
 		equal = a == b
-	case 3: // number vs string: never equal
+	case 3: // number vs string: never equal (an integer is not converted into the rune it numbers)
 		data, member = genTypedNum([]int64{0, 1, 65}[verifChoose(3)]), []string{"A", "1", ""}[verifChoose(3)]
 		equal = false
-		verifKF("C14-KF-ENUM-CONVERT", true)
 	default: // nested slices
 		data, member = []interface{}{float64(x)}, []interface{}{float64(y)}
 		equal = x == y
